@@ -115,13 +115,13 @@ def c_epoch(c):
 
 SYN = [dict(date=d, lat=la, lon=lo, h=hh)
        for d in (2015.0, 2017.5, 2019.9, 2020.0, 2022.3, 2024.9, 2025.0, 2027.4, 2030.0)
-       for la in (-89.9, -75.0, -60.0, -45.0, -30.0, -15.0, -1e-6, 0.0, 10.0, 25.0, 40.0, 55.0, 70.0, 85.0, 89.9)
+       for la in (-90.0, -89.9, -75.0, -60.0, -45.0, -30.0, -15.0, -1e-6, 0.0, 10.0, 25.0, 40.0, 55.0, 70.0, 85.0, 89.9, 90.0)
        for lo in (-180.0, -135.0, -90.0, -45.0, 0.0, 30.0, 77.7, 120.0, 180.0)
        for hh in (-1.0, 0.0, 100.0, 850.0)]
 
 
-@contract('C14', 'synthesis.bounded-grid', concrete_points=SYN, bounded='grid of 9 dates x 15 latitudes x 9 longitudes x 4 heights '
-          '(4860 points); NOT a proof', functions=['WMM.magnetic_field', 'WMM.denormalize_coefficients'], tol=1e-6)
+@contract('C14', 'synthesis.bounded-grid', concrete_points=SYN, bounded='grid of 9 dates x 17 latitudes (both poles included) x 9 longitudes x 4 heights '
+          '(5508 points); NOT a proof', functions=['WMM.magnetic_field', 'WMM.denormalize_coefficients'], tol=1e-6)
 def c_synthesis(c):
     """BOUNDED stand-in: north/east/down components against the independent evaluation, to 1e-6 nT + 1e-9 relative"""
     import ahrs
@@ -136,4 +136,4 @@ def c_synthesis(c):
 
 NOT_COVERED = ["the degree-12 synthesis as a for-all-inputs identity (only the bounded grid above): the code's recursion constants "
                "are rounded floats, so the identity with the exact Schmidt functions holds only to rounding",
-               "exact poles (cos(lat') == 0 branch): latitude +-89.9 in the grid"]
+               "the cos(lat') == 0 branch of the code is unreachable in floats (cos(pi/2) = 6e-17); the poles are grid points"]
